@@ -1,5 +1,6 @@
 import Dbg.Props.C06
 import Dbg.Props.C04
+import Dbg.Lemmas.Payload
 /-! # C06 (continued) — the partition of every pipeline variant is invariant under reverse-complementing reads
 
 From the table-level invariance (`C06_tables_agree`: same keys and payloads, same extension bytes except at
@@ -116,6 +117,99 @@ theorem C06_direct_rc_invariant (K : Nat) (hK : 4 ≤ K) (reads : List (Seq × E
   have c2' := classes_transfer c2 (fun k1 k2 =>
     ⟨Compress.kconn_contentW _ wfRp cw' k1 k2, Compress.kconn_contentW _ wfRp' cw k1 k2⟩)
   exact Compress.sameParts_of_classes c1 c2'
+
+/-- the one-pass pipeline: every node carries the saturated sum of the reference table's counts of its k-mers, and lists
+    each of its k-mers once -/
+theorem direct_pipeline_kdata (K : Nat) (hK : 4 ≤ K) (reads : List (Seq × Exts × Nat)) (hb : Filter.NoBoundary reads)
+    (st : Bool) (thr : Nat) (dsigma : List Nat)
+    (hds : dsigma.Perm (List.range (refTable K reads (.count thr) st).length)) :
+    ∃ gd, direct K reads st thr dsigma = some gd ∧
+      ∀ n ∈ gd.nodes, Compress.KData (refTable K reads (.count thr) st) K st n ∧ (canonKeys K st n).Nodup ∧
+        ∀ k ∈ canonKeys K st n, k ∈ (refTable K reads (.count thr) st).map (·.key) := by
+  have hK1 : 1 ≤ K := by omega
+  have hgR := Compress.refTable_goodData K reads thr st
+  generalize hR : refTable K reads (.count thr) st = R at *
+  have wfR : Compress.WF R K st := by rw [← hR]; exact Filter.refTable_wf K hK1 _ hb _ st
+  have hesR : Filter.ExtSym2 R st := by rw [← hR]; exact Filter.refTable_extSym2 K hK1 _ hb _ st
+  have wfRp := Filter.wf_removeCensored st R K wfR
+  have hesRp := Filter.extSym2_removeCensored st R K wfR hesR
+  let Td : Table Filter.Payload := dsigma.filterMap fun i => (removeCensoredExts st R)[i]?
+  have hpd : Td.Perm (removeCensoredExts st R) := by
+    apply Compress.perm_of_sigma
+    rw [(Filter.removeCensored_exact st R).1]; exact hds
+  have wfd := Filter.wf_perm st _ Td K hpd wfRp
+  have hesd := Filter.extSym2_perm st _ Td K hpd wfRp hesRp
+  -- entries of Td are entries of R with the same key and payload
+  have hent : ∀ ed ∈ Td, ∃ e0 ∈ R, ed.key = e0.key ∧ ed.data = e0.data := by
+    intro ed hed
+    obtain ⟨i, hi⟩ := Compress.mem_index _ ed (hpd.mem_iff.mp hed)
+    obtain ⟨e0, h0, hk, hd, _⟩ := (Filter.removeCensored_exact st R).2 i ed hi
+    exact ⟨e0, List.mem_of_getElem? h0, hk, hd⟩
+  have hgd : Compress.GoodData Td := by
+    intro e he
+    obtain ⟨e0, he0, _, hd⟩ := hent e he
+    rw [hd]; exact hgR e0 he0
+  obtain ⟨outd, hod, _, _⟩ := Compress.compressKmersC_partition (join := fun _ _ => true) sumReduce wfd hesd.toExtSym (fun _ _ => rfl)
+  have hkdd := Compress.compress_kdata wfd hesd.toExtSym (fun _ _ => rfl) hgd outd hod
+  obtain ⟨portd, memd, pgd, _⟩ := Compress.pgraph_of_compress sumReduce wfd hesd.toExtSym (fun _ _ => rfl) outd hod
+  refine ⟨⟨K, outd.map (·.1), st⟩, ?_, ?_⟩
+  · unfold direct
+    obtain ⟨fr, hfr, ht, _⟩ := Filter.filterKmers_eq_ref K reads (.count thr) st false 4 Gen.filterBytesPerUnit 16 hK (by decide) (by decide)
+    rw [hfr]
+    simp only
+    rw [ht, hR]
+    have : Compress.compressKmersC (dsigma.filterMap fun i => (removeCensoredExts st R)[i]?) st (fun _ _ => true) sumReduce = some outd := hod
+    rw [this]
+  · intro n hn
+    obtain ⟨x, hx, rfl⟩ := List.mem_map.mp hn
+    obtain ⟨j, hj, ej⟩ := List.getElem_of_mem hn
+    have hsub := Compress.built_keys_sub wfd hesd.toExtSym (fun _ _ => rfl) outd hod x hx
+    have hkeyR : ∀ k ∈ canonKeys K st x.1, k ∈ R.map (·.key) ∧ Compress.cntK Td k = Compress.cntK R k := by
+      intro k hk
+      obtain ⟨ed, hed, hked⟩ := List.mem_map.mp (hsub k hk)
+      obtain ⟨e0, he0, hk0, hd0⟩ := hent ed hed
+      refine ⟨by rw [← hked, hk0]; exact List.mem_map_of_mem he0, ?_⟩
+      rw [← hked, Compress.cntK_of_mem wfd ed hed, hk0, Compress.cntK_of_mem wfR e0 he0, hd0]
+    exact ⟨Compress.kdata_congr x.1 (fun k hk => (hkeyR k hk).2) (hkdd x hx),
+      pgd.canonKeys_nodup wfd j x.1 (by rw [List.getElem?_eq_getElem hj, ej]), fun k hk => (hkeyR k hk).1⟩
+
+/-- **C06 (payloads, one-pass pipeline).** Unstranded: nodes of the two runs (original reads / partly reverse-complemented
+    reads, any hash orders) that have the same k-mers have the same payload. -/
+theorem C06_direct_payload_rc_invariant (K : Nat) (hK : 4 ≤ K) (reads : List (Seq × Exts × Nat)) (hb : Filter.NoBoundary reads)
+    (thr : Nat) (m : Nat → Bool) (dsigma dsigma' : List Nat)
+    (hds : dsigma.Perm (List.range (refTable K reads (.count thr) false).length))
+    (hds' : dsigma'.Perm (List.range (refTable K (Filter.flipReads m 0 reads) (.count thr) false).length)) :
+    ∃ gd gd', direct K reads false thr dsigma = some gd ∧ direct K (Filter.flipReads m 0 reads) false thr dsigma' = some gd' ∧
+      ∀ n ∈ gd.nodes, ∀ n' ∈ gd'.nodes, (∀ k, k ∈ canonKeys K false n ↔ k ∈ canonKeys K false n') → n.data = n'.data := by
+  have hK1 : 1 ≤ K := by omega
+  have hb' : Filter.NoBoundary (Filter.flipReads m 0 reads) := by
+    have : ∀ (k : Nat) (l : List (Seq × Exts × Nat)), Filter.NoBoundary l → Filter.NoBoundary (Filter.flipReads m k l) := by
+      intro k l
+      induction l generalizing k with
+      | nil => intro _ r hr; cases hr
+      | cons a t ih =>
+        intro h r hr
+        unfold Filter.flipReads at hr
+        rcases List.mem_cons.mp hr with rfl | hr'
+        · split
+          · exact h a (List.mem_cons_self ..)
+          · exact h a (List.mem_cons_self ..)
+        · exact ih (k + 1) (fun r' hr'' => h r' (List.mem_cons_of_mem _ hr'')) r hr'
+    exact this 0 reads hb
+  obtain ⟨gd, h1, c1⟩ := direct_pipeline_kdata K hK reads hb false thr dsigma hds
+  obtain ⟨gd', h2, c2⟩ := direct_pipeline_kdata K hK (Filter.flipReads m 0 reads) hb' false thr dsigma' hds'
+  refine ⟨gd, gd', h1, h2, fun n hn n' hn' hk => ?_⟩
+  have hag := Compress.C06_tables_agree K hK1 reads hb (.count thr) m
+  have wfR := Filter.refTable_wf K hK1 reads hb (.count thr) false
+  have wfR' := Filter.refTable_wf K hK1 _ hb' (.count thr) false
+  obtain ⟨kd, nd, hsub⟩ := c1 n hn
+  obtain ⟨kd', nd', _⟩ := c2 n' hn'
+  apply Compress.data_eq_of_same_keys n n' kd kd' nd nd' hk
+  intro k hkn
+  obtain ⟨e, he, hke⟩ := List.mem_map.mp (hsub k hkn)
+  obtain ⟨i, hi⟩ := Compress.mem_index _ e he
+  obtain ⟨e', hi', hk', hd', _⟩ := hag.get i e hi
+  rw [← hke, Compress.cntK_of_mem wfR e he, ← hk', Compress.cntK_of_mem wfR' e' (List.mem_of_getElem? hi'), hd']
 
 /-- reverse-complement the reads selected by `m` -/
 def flipSeqs (m : Nat → Bool) (k : Nat) : List Seq → List Seq
